@@ -92,7 +92,7 @@ extern void __asan_poison_memory_region(void const volatile* addr, size_t size);
 extern void __asan_unpoison_memory_region(void const volatile* addr, size_t size);    /* up to here: mapping that ends at a guard page */
 
 static FILE* w_out;                      /* worker -> supervisor */
-static long cpu_ms = 5000;
+static long cpu_ms = 3000;
 
 typedef struct { void* p; void* base; size_t maplen; } obuf;
 
@@ -178,6 +178,95 @@ static void vals_i16(char* dst, size_t dsz, const int16_t* v, int64_t n) {
     if (n > 64) { dst[0] = 0; return; }
     size_t k = (size_t)snprintf(dst, dsz, " v=%s", n == 0 ? "-" : "");
     for (int64_t i = 0; i < n && k + 16 < dsz; i++) k += (size_t)snprintf(dst + k, dsz - k, "%s%d", i ? "," : "", (int)v[i]);
+}
+
+
+/* ------------------------------------------------------------------------------------------------ */
+/* Exact arena: carquet's arena hands out slices of 64 KiB blocks, so an overrun of one request into the next
+ * stays inside a heap object and ASan cannot see it.  The allocation entry points parquet_types.c uses are
+ * wrapped at link time (-Wl,--wrap=...): while g_exact_arena is set every request is served by its OWN
+ * exact-size heap block (same results as the real functions: NULL for size 0 / overflow / NULL source), kept in
+ * a side list and released by exact_free_all(); otherwise the real arena is used. */
+static int g_exact_arena;
+static void** g_exact; static size_t g_nexact, g_cexact;
+static void* exact_get(size_t size, int zero) {
+    void* p = zero ? calloc(1, size) : malloc(size);
+    if (!p) return NULL;
+    if (g_nexact == g_cexact) { g_cexact = g_cexact ? g_cexact * 2 : 1024; g_exact = realloc(g_exact, g_cexact * sizeof(void*)); }
+    g_exact[g_nexact++] = p;
+    return p;
+}
+static void exact_free_all(void) {
+    for (size_t i = 0; i < g_nexact; i++) free(g_exact[i]);
+    g_nexact = 0; free(g_exact); g_exact = NULL; g_cexact = 0;
+}
+void* __real_carquet_arena_alloc(carquet_arena_t*, size_t);
+void* __real_carquet_arena_calloc(carquet_arena_t*, size_t, size_t);
+char* __real_carquet_arena_strdup(carquet_arena_t*, const char*);
+char* __real_carquet_arena_strndup(carquet_arena_t*, const char*, size_t);
+void* __real_carquet_arena_memdup(carquet_arena_t*, const void*, size_t);
+void* __wrap_carquet_arena_alloc(carquet_arena_t* a, size_t size) {
+    if (!g_exact_arena) return __real_carquet_arena_alloc(a, size);
+    return size ? exact_get(size, 0) : NULL;
+}
+void* __wrap_carquet_arena_calloc(carquet_arena_t* a, size_t count, size_t size) {
+    if (!g_exact_arena) return __real_carquet_arena_calloc(a, count, size);
+    size_t total = count * size;
+    if (count != 0 && total / count != size) return NULL;
+    return total ? exact_get(total, 1) : NULL;
+}
+char* __wrap_carquet_arena_strndup(carquet_arena_t* a, const char* str, size_t max_len) {
+    if (!g_exact_arena) return __real_carquet_arena_strndup(a, str, max_len);
+    if (!str) return NULL;
+    size_t len = 0;
+    while (len < max_len && str[len]) len++;
+    char* c = exact_get(len + 1, 0);
+    if (c) { memcpy(c, str, len); c[len] = 0; }
+    return c;
+}
+char* __wrap_carquet_arena_strdup(carquet_arena_t* a, const char* str) {
+    if (!g_exact_arena) return __real_carquet_arena_strdup(a, str);
+    return str ? __wrap_carquet_arena_strndup(a, str, strlen(str)) : NULL;
+}
+void* __wrap_carquet_arena_memdup(carquet_arena_t* a, const void* src, size_t size) {
+    if (!g_exact_arena) return __real_carquet_arena_memdup(a, src, size);
+    if (!src || size == 0) return NULL;
+    void* c = exact_get(size, 0);
+    if (c) memcpy(c, src, size);
+    return c;
+}
+
+/* walk what parquet_parse_file_metadata built: every string / array it hands back must be readable */
+static unsigned walk_metadata(const parquet_file_metadata_t* m) {
+    unsigned s = 0;
+    for (int32_t i = 0; i < m->num_schema_elements && m->schema; i++)
+        if (m->schema[i].name) s += (unsigned)strlen(m->schema[i].name);
+    for (int32_t i = 0; i < m->num_key_value && m->key_value_metadata; i++) {
+        if (m->key_value_metadata[i].key) s += (unsigned)strlen(m->key_value_metadata[i].key);
+        if (m->key_value_metadata[i].value) s += (unsigned)strlen(m->key_value_metadata[i].value);
+    }
+    if (m->created_by) s += (unsigned)strlen(m->created_by);
+    for (int32_t g = 0; g < m->num_row_groups && m->row_groups; g++)
+        for (int32_t c = 0; c < m->row_groups[g].num_columns && m->row_groups[g].columns; c++) {
+            const parquet_column_chunk_t* cc = &m->row_groups[g].columns[c];
+            if (cc->file_path) s += (unsigned)strlen(cc->file_path);
+            const parquet_column_metadata_t* cm = &cc->metadata;
+            for (int32_t i = 0; i < cm->num_encodings && cm->encodings; i++) s += (unsigned)cm->encodings[i];
+            for (int32_t i = 0; i < cm->path_len && cm->path_in_schema; i++)
+                if (cm->path_in_schema[i]) s += (unsigned)strlen(cm->path_in_schema[i]);
+            for (int32_t i = 0; i < cm->num_key_value && cm->key_value_metadata; i++) {
+                if (cm->key_value_metadata[i].key) s += (unsigned)strlen(cm->key_value_metadata[i].key);
+                if (cm->key_value_metadata[i].value) s += (unsigned)strlen(cm->key_value_metadata[i].value);
+            }
+            for (int32_t i = 0; i < cm->num_encoding_stats && cm->encoding_stats; i++) s += (unsigned)cm->encoding_stats[i].count;
+            const parquet_statistics_t* stt = &cm->statistics;
+            for (int32_t i = 0; stt->max_value && i < stt->max_value_len; i++) s += stt->max_value[i];
+            for (int32_t i = 0; stt->min_value && i < stt->min_value_len; i++) s += stt->min_value[i];
+            for (int32_t i = 0; stt->max_deprecated && i < stt->max_deprecated_len; i++) s += stt->max_deprecated[i];
+            for (int32_t i = 0; stt->min_deprecated && i < stt->min_deprecated_len; i++) s += stt->min_deprecated[i];
+        }
+    for (int32_t i = 0; i < m->num_schema_elements && m->schema; i++) s += (unsigned)m->schema[i].type_length + (unsigned)m->schema[i].num_children;
+    return s;
 }
 
 typedef struct {
@@ -399,7 +488,7 @@ done_codec: ;
         size_t used = (size_t)-1;
         BEGIN(); int st = parquet_parse_page_header(in, n, h, &used, e); END();
         int vbad = 0;
-        if (st == CARQUET_OK && h->data_page_header.has_statistics) {
+        if (st == CARQUET_OK && h->type == CARQUET_PAGE_DATA && h->data_page_header.has_statistics) {   /* the union member selected by type */
             /* since /repo 1aabf2d the statistics of a data page header are parsed and min/max are views
              * into the input: they must lie inside it (and every byte is touched) */
             const parquet_statistics_t* s4 = &h->data_page_header.statistics;
@@ -415,50 +504,30 @@ done_codec: ;
         else RES("OK %zu", used);
         free(h); free(e);
     } else if (!strcmp(op, "thrift_fm")) {
+        /* two passes over the same input: the production arena, then the exact arena (one heap block per
+         * request, so that an overrun of one array / string into its neighbour is an ASan report) */
         parquet_file_metadata_t* m = malloc(sizeof *m);
         carquet_error_t* e = malloc(sizeof *e);
         carquet_arena_t arena;
         BEGIN();
         int st = carquet_arena_init(&arena) == CARQUET_OK ? 0 : -3;
-        long ns = 0, ng = 0;
+        long ns = 0, ng = 0; int st2 = -3; long ns2 = 0, ng2 = 0;
         if (st == 0) {
             st = parquet_parse_file_metadata(in, n, &arena, m, e);
-            if (st == CARQUET_OK) {
-                /* walk what was built: every string/array the parser hands back must be readable */
-                ns = m->num_schema_elements; ng = m->num_row_groups;
-                unsigned s = 0;
-                for (int32_t i = 0; i < m->num_schema_elements && m->schema; i++)
-                    if (m->schema[i].name) s += (unsigned)strlen(m->schema[i].name);
-                for (int32_t i = 0; i < m->num_key_value && m->key_value_metadata; i++) {
-                    if (m->key_value_metadata[i].key) s += (unsigned)strlen(m->key_value_metadata[i].key);
-                    if (m->key_value_metadata[i].value) s += (unsigned)strlen(m->key_value_metadata[i].value);
-                }
-                if (m->created_by) s += (unsigned)strlen(m->created_by);
-                for (int32_t g = 0; g < m->num_row_groups && m->row_groups; g++)
-                    for (int32_t c = 0; c < m->row_groups[g].num_columns && m->row_groups[g].columns; c++) {
-                        const parquet_column_chunk_t* cc = &m->row_groups[g].columns[c];
-                        if (cc->file_path) s += (unsigned)strlen(cc->file_path);
-                        const parquet_column_metadata_t* cm = &cc->metadata;
-                        for (int32_t i = 0; i < cm->num_encodings && cm->encodings; i++) s += (unsigned)cm->encodings[i];
-                        for (int32_t i = 0; i < cm->path_len && cm->path_in_schema; i++)
-                            if (cm->path_in_schema[i]) s += (unsigned)strlen(cm->path_in_schema[i]);
-                        for (int32_t i = 0; i < cm->num_key_value && cm->key_value_metadata; i++) {
-                            if (cm->key_value_metadata[i].key) s += (unsigned)strlen(cm->key_value_metadata[i].key);
-                            if (cm->key_value_metadata[i].value) s += (unsigned)strlen(cm->key_value_metadata[i].value);
-                        }
-                        for (int32_t i = 0; i < cm->num_encoding_stats && cm->encoding_stats; i++) s += (unsigned)cm->encoding_stats[i].count;
-                        const parquet_statistics_t* stt = &cm->statistics;
-                        for (int32_t i = 0; stt->max_value && i < stt->max_value_len; i++) s += stt->max_value[i];
-                        for (int32_t i = 0; stt->min_value && i < stt->min_value_len; i++) s += stt->min_value[i];
-                        for (int32_t i = 0; stt->max_deprecated && i < stt->max_deprecated_len; i++) s += stt->max_deprecated[i];
-                        for (int32_t i = 0; stt->min_deprecated && i < stt->min_deprecated_len; i++) s += stt->min_deprecated[i];
-                    }
-                g_sink += s;
-            }
+            if (st == CARQUET_OK) { ns = m->num_schema_elements; ng = m->num_row_groups; g_sink += walk_metadata(m); }
+            carquet_arena_destroy(&arena);
+        }
+        if (carquet_arena_init(&arena) == CARQUET_OK) {
+            g_exact_arena = 1;
+            st2 = parquet_parse_file_metadata(in, n, &arena, m, e);
+            if (st2 == CARQUET_OK) { ns2 = m->num_schema_elements; ng2 = m->num_row_groups; g_sink += walk_metadata(m); }
+            g_exact_arena = 0;
+            exact_free_all();
             carquet_arena_destroy(&arena);
         }
         END();
-        if (st != CARQUET_OK) RES("ERR %d", st); else RES("OK %ld %ld", ns, ng);
+        if (st != st2 || ns != ns2 || ng != ng2) RES("VIOL arena-dependent-result %d/%ld/%ld vs %d/%ld/%ld", st, ns, ng, st2, ns2, ng2);
+        else if (st != CARQUET_OK) RES("ERR %d", st); else RES("OK %ld %ld", ns, ng);
         free(m); free(e);
     } else if (!strcmp(op, "bitreader")) {
         /* carquet_bit_reader over exactly n bytes: reads of p-derived widths until exhausted */
@@ -579,6 +648,7 @@ static void fault_summary(int status, char* out, size_t outsz) {
     if (er) {
         /* "ERROR: AddressSanitizer: heap-buffer-overflow on address ..." + "READ/WRITE of size" + summary location */
         char kind[80] = ""; sscanf(er + 25, "%79s", kind);
+        if (!strcmp(kind, "attempting")) { char k2[40] = ""; sscanf(er + 25, "%*s %39s", k2); snprintf(kind, sizeof kind, "attempting-%s", k2); }
         char rw[16] = ""; char* q = strstr(er, "\nREAD of size"); char* w = strstr(er, "\nWRITE of size");
         if (q && (!w || q < w)) strcpy(rw, "READ"); else if (w) strcpy(rw, "WRITE");
         char loc[200] = "";
@@ -616,11 +686,20 @@ int main(int argc, char** argv) {
     (void)argc; (void)argv;
     const char* e = getenv("H_DEC_CPU_MS");
     if (e) cpu_ms = atol(e);
-    long wall_ms = cpu_ms * 6 + 20000;
+    long wall_ms = cpu_ms * 4 + 10000;
+    /* hang budget: after HANG_LIMIT cases of one entry point ran out of their CPU / wall budget the rest of that
+     * entry point's cases in this run are answered SKIP hang-budget, so that a non-terminating decoder is
+     * reported (each hang with its input) without stalling the whole check */
+    enum { HANG_LIMIT = 2, HANG_OPS = 64 };
+    static char hang_op[HANG_OPS][24]; static int hang_n[HANG_OPS]; int nhang = 0;
     signal(SIGPIPE, SIG_IGN);
     int final_rc = 0;
     while (h_readline()) {
         if (!h_line[0]) { puts("SKIP empty"); continue; }
+        char opname[24]; { size_t i = 0; while (h_line[i] && h_line[i] != ' ' && i < sizeof opname - 1) { opname[i] = h_line[i]; i++; } opname[i] = 0; }
+        int hi = -1;
+        for (int i = 0; i < nhang; i++) if (!strcmp(hang_op[i], opname)) hi = i;
+        if (hi >= 0 && hang_n[hi] >= HANG_LIMIT) { printf("SKIP hang-budget %s\n", opname); continue; }
         if (w_pid < 0) spawn();
         size_t L = strlen(h_line);
         h_line[L] = '\n';
@@ -643,12 +722,20 @@ int main(int argc, char** argv) {
             *strchr(ans, '\n') = 0;
             puts(ans);
             if (!strncmp(ans, "TIMEOUT", 7) || !strncmp(ans, "SKIP harness", 12)) { int st; reap(&st); }
+            if (!strncmp(ans, "TIMEOUT", 7)) {
+                if (hi < 0 && nhang < HANG_OPS) { hi = nhang++; strcpy(hang_op[hi], opname); hang_n[hi] = 0; }
+                if (hi >= 0) hang_n[hi]++;
+            }
+            fflush(stdout);
             continue;
         }
         if (wall) {
             kill(w_pid, SIGKILL);
             int st; reap(&st);
             printf("TIMEOUT wall %ld\n", wall_ms);
+            if (hi < 0 && nhang < HANG_OPS) { hi = nhang++; strcpy(hang_op[hi], opname); hang_n[hi] = 0; }
+            if (hi >= 0) hang_n[hi]++;
+            fflush(stdout);
             continue;
         }
         int st; reap(&st);
